@@ -228,4 +228,173 @@ theorem lastValue_distinct (form : List (Bytes × Bytes)) (k : Bytes) (h : keysD
     · have hk' : (p.1 == k) = false := by simpa using hk
       simp [lastValue, hk', ih h.2]
 
+/-! ### rocket's map context on plain field names -/
+
+/-- a field name rocket reads as one key: not empty, not starting with `=`, no `.`, `[`, `:` -/
+def plainName (n : Bytes) : Bool :=
+  !n.isEmpty && n.head? != some 61 && n.all (fun c => c != 46 && c != 91 && c != 58)
+
+def plainFields (fields : List (Bytes × Bytes)) : Bool := fields.all (fun p => plainName p.1)
+
+theorem findDelim_plain (n : Bytes) (h : n.all (fun c => c != 46 && c != 91 && c != 58) = true) :
+    findDelim n = n.length := by
+  induction n with
+  | nil => rfl
+  | cons c cs ih =>
+    rw [List.all_cons, Bool.and_eq_true] at h
+    have hc := h.1
+    simp only [Bool.and_eq_true, bne_iff_ne, ne_eq] at hc
+    have h46 : (c == 46) = false := by simp [hc.1.1]
+    have h91 : (c == 91) = false := by simp [hc.1.2]
+    simp [findDelim, h46, h91, ih h.2]
+
+theorem firstView_plain (n : Bytes) (h : plainName n = true) : firstView n = (n, true) := by
+  unfold plainName at h
+  simp only [Bool.and_eq_true] at h
+  obtain ⟨⟨hne, hhead⟩, hall⟩ := h
+  cases n with
+  | nil => simp at hne
+  | cons c cs =>
+    have hfd := findDelim_plain (c :: cs) hall
+    rw [List.all_cons, Bool.and_eq_true] at hall
+    have hc := hall.1
+    simp only [Bool.and_eq_true, bne_iff_ne, ne_eq] at hc
+    have h61 : (c == 61) = false := by
+      simp only [List.head?_cons, bne_iff_ne, ne_eq, Option.some.injEq] at hhead
+      simp [hhead]
+    have h91 : (c == 91) = false := by simp [hc.1.2]
+    have h46 : (c == 46) = false := by simp [hc.1.1]
+    simp only [firstView, h61, h91, h46, Bool.false_eq_true, ↓reduceIte, hfd]
+    simp
+
+theorem viewKey_plain (n : Bytes) (h : plainName n = true) : viewKey n true = n := by
+  unfold plainName at h
+  simp only [Bool.and_eq_true] at h
+  obtain ⟨⟨_, _⟩, hall⟩ := h
+  cases n with
+  | nil => rfl
+  | cons c cs =>
+    rw [List.all_cons, Bool.and_eq_true] at hall
+    have hc := hall.1
+    simp only [Bool.and_eq_true, bne_iff_ne, ne_eq] at hc
+    have h91 : (c == 91) = false := by simp [hc.1.2]
+    have h46 : (c == 46) = false := by simp [hc.1.1]
+    simp [viewKey, h46, h91]
+
+theorem beq_false_symm {a b : Bytes} (h : (a == b) = false) : (b == a) = false := by
+  simp only [beq_eq_false_iff_ne, ne_eq] at h ⊢
+  exact fun e => h e.symm
+
+theorem noColon_plain (n : Bytes) (hall : n.all (fun c => c != 46 && c != 91 && c != 58) = true) :
+    n.any (fun c => c == 58) = false ∧ splitAtByte 58 n = (n, []) := by
+  induction n with
+  | nil => exact ⟨rfl, rfl⟩
+  | cons c cs ih =>
+    rw [List.all_cons, Bool.and_eq_true] at hall
+    have hc := hall.1
+    simp only [Bool.and_eq_true, bne_iff_ne, ne_eq] at hc
+    have h58 : (c == 58) = false := by simp [hc.2]
+    have := ih hall.2
+    constructor
+    · rw [List.any_cons, h58, this.1]; rfl
+    · simp only [splitAtByte, h58, Bool.false_eq_true, ↓reduceIte, this.2]
+
+theorem keyIndices_plain (n : Bytes) (h : plainName n = true) : keyIndices n = (n, none) := by
+  unfold plainName at h
+  simp only [Bool.and_eq_true] at h
+  obtain ⟨⟨_, _⟩, hall⟩ := h
+  have := noColon_plain n hall
+  simp only [keyIndices, this.1, this.2, Bool.false_eq_true, ↓reduceIte]
+
+def toEntry (p : Bytes × Bytes) : Entry := { idx := p.1, k := some p.1, v := some p.2 }
+
+theorem hasIdx_append (es : List Entry) (e : Entry) (i : Bytes) :
+    hasIdx (es ++ [e]) i = (hasIdx es i || e.idx == i) := by
+  simp [hasIdx]
+
+theorem updEntry_absent (es : List Entry) (i : Bytes) (f : Entry → Entry) (h : hasIdx es i = false) :
+    updEntry es i f = es := by
+  unfold updEntry
+  unfold hasIdx at h
+  conv => rhs; rw [← List.map_id es]
+  apply List.map_congr_left
+  intro e he
+  have := List.any_eq_false.mp h e he
+  simp [this]
+
+theorem updEntry_append (es : List Entry) (e : Entry) (i : Bytes) (f : Entry → Entry) :
+    updEntry (es ++ [e]) i f = updEntry es i f ++ [if e.idx == i then f e else e] := by
+  simp [updEntry]
+
+theorem mapPush_plain (m : MapCtx) (nv : Bytes × Bytes) (hp : plainName nv.1 = true)
+    (hnew : hasIdx m.entries nv.1 = false) :
+    mapPush m nv = { m with entries := m.entries ++ [toEntry nv] } := by
+  have hne : nv.1.isEmpty = false := by
+    unfold plainName at hp
+    simp only [Bool.and_eq_true, Bool.not_eq_eq_eq_not, Bool.not_true] at hp
+    exact hp.1.1
+  unfold mapPush
+  simp only [firstView_plain nv.1 hp, viewKey_plain nv.1 hp, hne, Bool.false_eq_true, ↓reduceIte,
+    keyIndices_plain nv.1 hp, hnew, Bool.not_false, ensure]
+  rw [updEntry_append, updEntry_absent _ _ _ hnew, updEntry_append, updEntry_absent _ _ _ hnew]
+  simp [pushOpt, toEntry]
+
+theorem foldl_mapPush_plain (fields : List (Bytes × Bytes)) (m : MapCtx)
+    (hp : plainFields fields = true) (hd : keysDistinct fields = true)
+    (hfresh : ∀ p ∈ fields, hasIdx m.entries p.1 = false) :
+    fields.foldl mapPush m = { m with entries := m.entries ++ fields.map toEntry } := by
+  induction fields generalizing m with
+  | nil => simp
+  | cons p l ih =>
+    unfold plainFields at hp
+    rw [List.all_cons, Bool.and_eq_true] at hp
+    simp only [keysDistinct, Bool.and_eq_true, Bool.not_eq_eq_eq_not, Bool.not_true] at hd
+    rw [List.foldl_cons, mapPush_plain m p hp.1 (hfresh p (by simp))]
+    rw [ih _ hp.2 hd.2]
+    · simp
+    · intro q hq
+      simp only
+      rw [hasIdx_append, hfresh q (by simp [hq])]
+      have := List.any_eq_false.mp hd.1 q hq
+      simp only [toEntry, Bool.false_or]
+      exact beq_false_symm (by simpa using this)
+
+theorem insertKV_fresh (acc : List (Bytes × Bytes)) (k v : Bytes)
+    (h : acc.any (fun p => p.1 == k) = false) : insertKV acc k v = acc ++ [(k, v)] := by
+  simp [insertKV, h]
+
+theorem foldl_insert_distinct (fields acc : List (Bytes × Bytes)) (hd : keysDistinct fields = true)
+    (hfresh : ∀ p ∈ fields, acc.any (fun q => q.1 == p.1) = false) :
+    (fields.map toEntry).foldl finalizeStep acc = acc ++ fields := by
+  induction fields generalizing acc with
+  | nil => simp
+  | cons p l ih =>
+    simp only [keysDistinct, Bool.and_eq_true, Bool.not_eq_eq_eq_not, Bool.not_true] at hd
+    rw [List.map_cons, List.foldl_cons]
+    have hstep : finalizeStep acc (toEntry p) = insertKV acc p.1 p.2 := rfl
+    rw [hstep, insertKV_fresh acc p.1 p.2 (hfresh p (by simp))]
+    rw [ih _ hd.2]
+    · simp
+    · intro q hq
+      rw [List.any_append, hfresh q (by simp [hq])]
+      have := List.any_eq_false.mp hd.1 q hq
+      simp only [List.any_cons, List.any_nil, Bool.or_false, Bool.false_or]
+      exact beq_false_symm (by simpa using this)
+
+/-- for plain, pairwise distinct field names rocket's `HashMap` form is the list of fields itself -/
+theorem rocketMap_plain (fields : List (Bytes × Bytes)) (hp : plainFields fields = true)
+    (hd : keysDistinct fields = true) : rocketMap fields = some fields := by
+  unfold rocketMap
+  rw [foldl_mapPush_plain fields {} hp hd (by intro p _; rfl)]
+  unfold mapFinalize
+  have hany : (fields.map toEntry).any (fun e => e.k.isNone || e.v.isNone) = false := by
+    apply List.any_eq_false.mpr
+    intro e he
+    simp only [List.mem_map] at he
+    obtain ⟨p, _, rfl⟩ := he
+    simp [toEntry]
+  simp only [List.nil_append, Bool.false_eq_true, ↓reduceIte, hany]
+  rw [foldl_insert_distinct fields [] hd (by intro p _; rfl)]
+  simp
+
 end Rfsm.Http
